@@ -91,7 +91,7 @@ fn c06_grid() -> Vec<History> {
             for entry in 0..9u8 {
                 let mut ops = prefix.clone();
                 let chars: Vec<String> = vec!["aé€𝄞".repeat((n % 11).min(10))];
-                let it = |kind| IterSpec { kind, items: chars.clone(), slots: vec![], hint: Some(n), panic_at: None };
+                let it = |kind| IterSpec { kind, items: chars.clone(), slots: vec![], hint: Some(n), panic_at: None, loose: None };
                 ops.push(match entry {
                     0 => Op::WithCapacity { slot: 3, n: Size::Abs(n), try_: true },
                     1 => Op::WithCapacity { slot: 3, n: Size::Abs(n), try_: false },
@@ -428,7 +428,7 @@ fn growth_case() -> impl Fn(&History, &mut CurrentFile) -> (CaseStats, Option<Vi
 }
 
 /// push-one-char loops: O(log n) allocator requests, O(n) bytes moved
-fn push_loop(n: usize, unit: &[char]) -> Result<(usize, u64, u64), (String, String)> {
+fn push_loop(n: usize, unit: &[char], kind: usize) -> Result<(usize, u64, u64), (String, String)> {
     use crate::shadow;
     shadow::with(|h| {
         h.begin_case();
@@ -436,9 +436,18 @@ fn push_loop(n: usize, unit: &[char]) -> Result<(usize, u64, u64), (String, Stri
     });
     let mut s = lean_string::LeanString::new();
     let mut model_len = 0usize;
+    let mut tmp = [0u8; 4];
     for i in 0..n {
         let c = unit[i % unit.len()];
-        s.push(c);
+        // the same one-character append through the different entry points
+        match kind {
+            0 => s.push(c),
+            1 => s.extend(std::iter::once(c)),
+            2 => s.push_str(c.encode_utf8(&mut tmp)),
+            3 => s += c.encode_utf8(&mut tmp),
+            4 => s.insert(s.len(), c),
+            _ => s.extend([c.encode_utf8(&mut tmp) as &str]),
+        }
         model_len += c.len_utf8();
     }
     let ok = s.len() == model_len && s.chars().count() == n;
@@ -478,7 +487,7 @@ fn push_loop(n: usize, unit: &[char]) -> Result<(usize, u64, u64), (String, Stri
 
 pub fn c12_loop_case(n: usize, mix: usize) -> Option<Violation> {
     let units: [&[char]; 3] = [&['a'], &['a', 'é', '€', '𝄞'], &['𝄞']];
-    match push_loop(n, units[mix % 3]) {
+    match push_loop(n, units[mix % 3], mix / 3) {
         Ok(_) => None,
         Err((clause, detail)) => Some(Violation {
             case: serde_json::json!({"kind": "push_loop", "n": n, "mix": mix}),
@@ -524,7 +533,8 @@ pub fn c12(tier: Tier, seed: u64) -> Verdict {
         if tier == Tier::Thorough {
             ns.push(4 << 20);
         }
-        let cases: Vec<(usize, usize)> = ns.iter().flat_map(|&n| (0..3).map(move |m| (n, m))).collect();
+        // mix = character mix (mod 3) + 3 * entry point (push, extend(once), push_str, +=, insert at end, extend([&str]))
+        let cases: Vec<(usize, usize)> = ns.iter().flat_map(|&n| (0..18).filter(move |m| n <= 100_000 || *m < 6).map(move |m| (n, m))).collect();
         let m = run_parallel(|shard| {
             let mut m = Merged::new();
             let mut i = cases.len() as isize - 1 - shard as isize;
@@ -608,7 +618,7 @@ fn recipe(r: u8, text: &str, t: Slot, scratch: Slot, static_k: Option<u16>) -> V
             Op::FromText { slot: t, via: Via::Str, text: format!("€{text}") },
             Op::Remove { slot: t, idx: Idx::Raw(0), try_: false },
         ],
-        11 => vec![Op::Collect { slot: t, it: IterSpec { kind: IterKind::Char, items: vec![tx], slots: vec![], hint: None, panic_at: None } }],
+        11 => vec![Op::Collect { slot: t, it: IterSpec { kind: IterKind::Char, items: vec![tx], slots: vec![], hint: None, panic_at: None, loose: None } }],
         _ => vec![Op::FromText { slot: t, via: Via::Str, text: tx }],
     }
 }
